@@ -92,7 +92,9 @@ func verifyAny(be int, proof any, vk any, pub witness.Witness) (err error, panic
 func cloneProof(be int, curve ecc.ID, proof any) (any, error) {
 	w, err := encode(proof, true)
 	if err != nil {
-		return nil, err
+		if w, err = encode(proof, false); err != nil {
+			return nil, err
+		}
 	}
 	p := newProof(be, curve)
 	if _, err := p.ReadFrom(bytes.NewReader(w.Buf)); err != nil {
